@@ -166,6 +166,10 @@ def check_no_memo_tables(ctx, r, cg, tag):
         if cached is None:
             continue
         n += 1
+        if f.qualname in pred and _keys_are_annotation_attributes(m, cg, f, pred):
+            ctx.ok(tag, f.qualname, f"`{cached}` table reachable from checks, but every call site keys it by attributes of the annotation class only "
+                   "(immutable, built by jaxtyping): a pure function of its key")
+            continue
         if f.qualname in pred:
             ctx.bad(tag, f, f.node, f"`{cached}` on a function reachable from a check entry point "
                     f"({' -> '.join(cg.chain(pred, f.qualname)[-4:])}): a process-wide table is read and written at check time",
@@ -221,3 +225,24 @@ def _verify_suppression(ctx, cg, sup, pred) -> bool:
                 ok = False
         return ok and n >= 2
     return False
+
+
+def _keys_are_annotation_attributes(m, cg, f, pred) -> bool:
+    """All arguments at all reachable call sites are `cls.<attr>` chains of the annotation class
+    (receiver of a metaclass method) or constants."""
+    sites = [(c, call) for c, call in cg.callers(f) if isinstance(c, FuncInfo) and c.qualname in pred and isinstance(call, ast.Call)]
+    if not sites:
+        return False
+    for caller, call in sites:
+        if caller.cls is None or not m.is_metaclass(caller.cls) or not caller.params:
+            return False
+        recv = caller.params[0]
+        for a in list(call.args) + [k.value for k in call.keywords]:
+            if isinstance(a, ast.Constant):
+                continue
+            x = a
+            while isinstance(x, ast.Attribute):
+                x = x.value
+            if not (isinstance(x, ast.Name) and x.id == recv and isinstance(a, ast.Attribute)):
+                return False
+    return True
